@@ -323,7 +323,7 @@ def get_switched_peak_array_indices(values, tol=0.0):
     array_like
     """
     peak_indices = get_peak_array_indices(values)
-    peak_values = np.take(values, peak_indices)
+    peak_values = np.asarray(np.take(values, peak_indices), dtype=float)
 
     last = peak_values[0]
     new_peak_indices = []
